@@ -127,21 +127,26 @@ MergeArgProg(c) == <<D(FA("merge", X, <<c.a1, c.a2>>)), T(<<124>>), D(X)>>
 
 \* family 8: Go values with methods that change their receiver: a template works on the values it was given (whatever the
 \* calls return), the caller's elements stay as they are and a second render with the same values prints the same
-ObjData == [ counters |-> VLg(<<VI(1), VI(5)>>, "counters"), counterptrs |-> VLg(<<VI(1), VI(5)>>, "counterptrs"), counterarr |-> VLg(<<VI(1), VI(5)>>, "counterarr") ]
+ObjData == [ embnils |-> VLg(<<VI(1), VI(5)>>, "embnils"), counters |-> VLg(<<VI(1), VI(5)>>, "counters"), counterptrs |-> VLg(<<VI(1), VI(5)>>, "counterptrs"), counterarr |-> VLg(<<VI(1), VI(5)>>, "counterarr") ]
 ObjProgs == [ loopnext |-> <<For1("i", X, <<PrintS(Attr(Var("i"), "Next")), T(<<44>>), PrintS(Attr(Var("i"), "Next")), T(<<59>>)>>)>>,
               looppush |-> <<For1("i", X, <<PrintS(Attr(Var("i"), "Push")), T(<<59>>)>>)>>,
               itemnext |-> <<PrintS(Attr(Item(X, LI(0)), "Next")), PrintS(Attr(Filt("first", X, <<>>), "Next")), PrintS(Attr(Filt("last", X, <<>>), "Push"))>>,
               loopkv   |-> <<For("v", "k", X, <<PrintS(Attr(Var("v"), "Next"))>>, <<>>, FALSE)>>,
               chained  |-> <<For1("i", FA("slice", X, <<LI(0), LI(2)>>), <<PrintS(Attr(Var("i"), "Next"))>>), For1("i", F("reverse", X), <<PrintS(Attr(Var("i"), "Push"))>>)>>,
               setnext  |-> <<Set("e", Item(X, LI(1))), PrintS(Attr(Var("e"), "Next")), PrintS(Attr(Attr(Var("e"), "Reset"), "N"))>>,
+              readw    |-> <<For1("i", X, <<PrintS(Attr(Var("i"), "K")), PrintS(Attr(Var("i"), "W")), PrintS(Attr(Var("i"), "X"))>>), PrintS(Attr(Item(X, LI(0)), "W"))>>,
+              readdef  |-> <<For1("i", X, <<PrintS(Cond(Test(Attr(Var("i"), "W"), "defined", <<>>, FALSE), LI(1), LI(2))), PrintS(Filt("default", Attr(Var("i"), "X"), <<LI(7)>>))>>)>>,
               incnext  |-> <<Include(LS(NT.t4), Hash(<<LS(NT.e)>>, <<Item(X, LI(0))>>), TRUE, FALSE, FALSE, FALSE)>> ]
 \* (pointers handed in by the caller are the caller's invitation to work on the objects: only values and arrays of values)
 ObjCases == {[fam |-> "objs", d |-> d, p |-> p] : d \in {"counters", "counterarr"}, p \in DOMAIN ObjProgs}
+            \* pointers to structs whose embedded pointer is nil: reading (no method is called) what would be promoted through it
+            \cup {[fam |-> "objs", d |-> "embnils", p |-> p] : p \in {"readw", "readdef"}}
 
 \* family 9: functions and filters that walk the whole value (what they give is C19's business or not stated at all:
 \* only the caller's data and the repeatability are checked)
 MiiMap == VMg(<<VI(1), VS(<<49>>)>>, <<VS(<<97>>), VS(<<98>>)>>, "mii")          \* map[interface{}]interface{}{1: "a", "1": "b"}
-WalkData == [ anycap |-> Data.anycap, any |-> Data.any, ints |-> Data.ints, map |-> Data.map, msi |-> Data.msi,
+WalkData == [ f64nan |-> VLg(I3, "f64nan"), f32s |-> Data.f32s, strs |-> Data.strs,
+              anycap |-> Data.anycap, any |-> Data.any, ints |-> Data.ints, map |-> Data.map, msi |-> Data.msi,
               nestmii |-> VM(<<VS(<<107>>)>>, <<MiiMap>>), listmii |-> VL(<<MiiMap, VI(2)>>),
               deepmii |-> VM(<<VS(<<107>>)>>, <<VL(<<VM(<<VS(<<106>>)>>, <<MiiMap>>)>>)>>) ]
 WalkProgs == [ jsonf    |-> <<D(F("json_encode", X)), T(<<124>>), D(X)>>,
@@ -150,22 +155,36 @@ WalkProgs == [ jsonf    |-> <<D(F("json_encode", X)), T(<<124>>), D(X)>>,
                mergefn3 |-> <<D(Call("merge", <<X, X, Arr(<<LI(9), LI(8)>>)>>)), T(<<124>>), D(X)>>,
                mergefnh |-> <<D(Call("merge", <<X, Hash(<<LS(NT.z)>>, <<LI(9)>>)>>)), T(<<124>>), D(X)>>,
                mergefnset |-> <<Set("m", Call("merge", <<X, Arr(<<LI(9)>>)>>)), Set("n", Call("merge", <<X, Arr(<<LI(8)>>)>>)), D(Var("m")), D(Var("n")), D(X)>>,
-               lengthf  |-> <<D(F("length", X)), D(F("keys", X)), D(X)>> ]
+               lengthf  |-> <<D(F("length", X)), D(F("keys", X)), D(X)>>,
+               sortf    |-> <<D(F("sort", X)), T(<<124>>), D(X), T(<<124>>), D(F("first", F("sort", X))), D(F("last", F("sort", F("reverse", X))))>>,
+               minmaxf  |-> <<D(Call("max", <<X>>)), D(Call("min", <<X>>)), T(<<124>>), D(X)>>,
+               joinf    |-> <<D(FA("join", F("sort", X), <<LS(<<44>>)>>)), For1("i", F("sort", X), <<D(Var("i"))>>), T(<<124>>), D(X)>> ]
 WalkCases == {[fam |-> "walk", d |-> d, p |-> p] : d \in DOMAIN WalkData, p \in DOMAIN WalkProgs}
+
+\* family 10: engine globals next to the caller's context: the globals are the engine's, the map is the caller's -- a render
+\* leaves the map with the keys it had (also when the template assigns the global's name, includes, calls macros)
+Globals18 == ("g" :> VS(<<71>>)) @@ ("x" :> VI(0)) @@ ("h" :> VL(<<VI(8)>>))
+GlobProgs == [ read    |-> <<PrintS(Var("g")), D(X), D(Var("h"))>>,
+               setg    |-> <<Set("g", LI(1)), PrintS(Var("g")), D(X)>>,
+               inc     |-> <<Inc(LS(NT.t6)), Include(LS(NT.t6), Lit(Null), FALSE, TRUE, FALSE, FALSE), D(X)>>,
+               mac     |-> <<Macro("mm", <<>>, <<PrintS(Var("g"))>>), PrintS(Call("mm", <<>>)), For1("g", X, <<PrintS(Var("g"))>>)>>,
+               mergeh  |-> <<Set("h", FA("merge", Var("h"), <<X>>)), D(Var("h")), D(X)>> ]
+GlobCases == {[fam |-> "glob", d |-> d, p |-> p] : d \in {"any", "anycap", "map"}, p \in DOMAIN GlobProgs}
 
 \* a context with many keys (size classes of the engine's pooled maps) and top-level writes
 BigKeys == {"k01", "k02", "k03", "k04", "k05", "k06", "k07", "k08", "k09", "k10", "k11", "k12", "k13", "k14", "k15", "k16", "k17", "k18", "k19", "k20"}
 BigCtx(n) == [k \in {kk \in BigKeys : \E i \in 1..n : kk = (IF i < 10 THEN "k0" \o ToString(i) ELSE "k" \o ToString(i))} |-> VI(1)] @@ ("x" :> VL(I3))
 BigCases == {[fam |-> "bigctx", n |-> n, w |-> w] : n \in {3, 15, 16, 17, 20}, w \in {"set", "loopvar", "setinloop", "macroparam"}}
 BigProg(c) == <<Set("k01", LI(5)), Set("fresh", LI(6))>> \o WriteProg([w |-> c.w, d |-> "any"]) \o <<PrintS(Var("k01")), PrintS(Var("k02"))>>
-Prog(c) == CASE c.fam = "objs" -> ObjProgs[c.p] [] c.fam = "walk" -> WalkProgs[c.p] [] c.fam = "bigctx" -> BigProg(c) [] c.fam = "pair" -> PairProg(c) [] c.fam = "mergeargs" -> MergeArgProg(c) [] c.fam = "chain" -> ChainProg(c) [] c.fam = "reobs" -> ReobsProg(c)
+Prog(c) == CASE c.fam = "objs" -> ObjProgs[c.p] [] c.fam = "walk" -> WalkProgs[c.p] [] c.fam = "glob" -> GlobProgs[c.p] [] c.fam = "bigctx" -> BigProg(c) [] c.fam = "pair" -> PairProg(c) [] c.fam = "mergeargs" -> MergeArgProg(c) [] c.fam = "chain" -> ChainProg(c) [] c.fam = "reobs" -> ReobsProg(c)
              [] c.fam = "write" -> WriteProg(c) [] c.fam = "nested" -> NestProg(c)
 CtxOf(c) == IF c.fam = "objs" THEN ("x" :> ObjData[c.d]) ELSE IF c.fam = "walk" THEN ("x" :> WalkData[c.d]) ELSE IF c.fam = "nested" THEN NestCtx ELSE IF c.fam = "bigctx" THEN BigCtx(c.n)
             ELSE IF c.fam = "pair" THEN ("x" :> PairData[c.d].x) @@ ("y" :> PairData[c.d].y) ELSE ("x" :> Data[c.d])
 Tp(c) == ("main" :> Prog(c)) @@ ("t1" :> <<D(X), Set("x", LI(0))>>) @@ ("t2" :> <<Set("x", LI(9)), D(X)>>) @@ ("t3" :> <<Macro("mm", <<>>, <<T(<<109>>)>>)>>)
          @@ ("t4" :> <<PrintS(Attr(Var("e"), "Next")), PrintS(Attr(Var("e"), "Push"))>>)
+         @@ ("t6" :> <<T(<<60>>), PrintS(Var("g")), T(<<62>>)>>)
          @@ ("t5" :> <<Set("p", FA("merge", Var("p"), <<NewFor(IF "d" \in DOMAIN c THEN c.d ELSE "any")>>)), D(Var("p"))>>)
-Ref(c) == Render(MkW(Tp(c), {}, {}, NoFault), "main", CtxOf(c))
+Ref(c) == Render(IF c.fam = "glob" THEN WithGlobals(MkW(Tp(c), {}, {}, NoFault), Globals18) ELSE MkW(Tp(c), {}, {}, NoFault), "main", CtxOf(c))
 
 CaseOf(c) ==
     LET ref == Ref(c) IN
@@ -173,8 +192,8 @@ CaseOf(c) ==
      tags |-> {"fam:" \o c.fam} \cup (IF "d" \in DOMAIN c THEN {"d:" \o c.d} ELSE {})
               \cup (IF c.fam = "chain" THEN {"f:" \o c.fs[i] : i \in 1..Len(c.fs)} ELSE {})
               \cup (IF c.fam \in {"reobs", "nested"} THEN {"f:" \o c.f, "f:" \o c.g} ELSE {})
-              \cup (IF c.fam \in {"write", "bigctx"} THEN {"w:" \o c.w} ELSE {}) \cup (IF c.fam = "walk" THEN {"p:" \o c.p} ELSE {}) \cup (IF c.fam = "pair" THEN {"f:" \o c.f, "form:" \o c.form} ELSE {}),
-     entry |-> "main", ctx |-> CtxOf(c),
+              \cup (IF c.fam \in {"write", "bigctx"} THEN {"w:" \o c.w} ELSE {}) \cup (IF c.fam \in {"walk", "glob"} THEN {"p:" \o c.p} ELSE {}) \cup (IF c.fam = "pair" THEN {"f:" \o c.f, "form:" \o c.form} ELSE {}),
+     entry |-> "main", ctx |-> CtxOf(c), cfg |-> [globals |-> IF c.fam = "glob" THEN Globals18 ELSE EmptyFn],
      \* (the second run: the engine in debug mode)
      runs |-> {[label |-> c.fam, tp |-> Sources(Tp(c), LMin), xcalls |-> [id \in {} |-> 0], shared |-> 2],
                [label |-> c.fam \o "/debug", tp |-> Sources(Tp(c), LMin), xcalls |-> [id \in {} |-> 0], shared |-> 2, debug |-> TRUE]},
@@ -182,8 +201,8 @@ CaseOf(c) ==
      expect |-> IF c.fam \in {"mergeargs", "objs", "walk"} THEN [ok |-> TRUE, anyoutcome |-> TRUE, out |-> <<>>, noout |-> TRUE, err |-> "", calls |-> [id \in {} |-> 0]]
                 ELSE [ok |-> ref.ok, out |-> ref.out, err |-> ref.err, calls |-> [id \in {} |-> 0]]]
 
-Fams == {"chain", "reobs", "write", "nested", "bigctx", "pair", "mergeargs", "objs", "walk"}
-All == ChainCases \cup ReobsCases \cup WriteCases \cup NestCases \cup BigCases \cup PairCases \cup MergeArgCases \cup ObjCases \cup WalkCases
+Fams == {"chain", "reobs", "write", "nested", "bigctx", "pair", "mergeargs", "objs", "walk", "glob"}
+All == ChainCases \cup ReobsCases \cup WriteCases \cup NestCases \cup BigCases \cup PairCases \cup MergeArgCases \cup ObjCases \cup WalkCases \cup GlobCases
 Init == cs \in {[part |-> f] : f \in Fams}
 Valid(c) == CASE c.fam = "chain" -> ChainOK(c.d, c.fs)
              [] c.fam = "reobs" -> (IsMapData(c.d) => c.f \in MapFirstSteps /\ (c.f \in {"default", "mergeself"} => c.g \in MapFirstSteps))
